@@ -20,7 +20,7 @@ SS == INSTANCE SyncServe WITH
         Backend <- "bolt", Buf <- 1, Remap <- FALSE, Faults <- {}, MaxFaults <- 0,
         head <- 0, lo <- 0, wr <- 0, lockW <- 0, cbs <- 0, ch <- 0, q <- 0, wk <- 0, item <- 0, pc <- 0,
         from <- 0, cur <- 0, snap <- 0, pos <- 0, sent <- 0, phase <- 0, cons <- 0, ctxd <- 0, err <- 0,
-        why <- 0, nfault <- 0
+        why <- 0, nfault <- 0, due <- 0
 
 TraceLog == ndJsonDeserialize("trace.ndjson")
 
@@ -45,7 +45,7 @@ G0 == [head |-> 0, lo |-> 0, dig |-> EmptyFn, pend |-> EmptyFn, reg |-> EmptyFn,
 
 NewStream(f, a, h) ==
   [from |-> f, a |-> a, pc |-> "open", sent |-> <<>>, nscan |-> 0, skipped |-> {}, dispAfter |-> {},
-   health |-> "ok", orphan |-> FALSE, repl |-> FALSE, lost |-> {}, disp |-> 0, taken |-> 0, headOpen |-> h,
+   health |-> "ok", pred |-> 0, orphan |-> FALSE, repl |-> FALSE, lost |-> {}, disp |-> 0, taken |-> 0, headOpen |-> h,
    evict |-> FALSE, why |-> "none"]
 
 Alarm(mon, e, shape, detail) ==
@@ -133,12 +133,24 @@ StepAfterScan(e) ==
   /\ ss' = [ss EXCEPT ![e.s].pc = "after"]
   /\ UNCHANGED <<g, alarms, scen>>
 
+\* effect of AddCallback(id) by stream n: it owns the id from now on, the previous owner is replaced
+AddEffect(n) ==
+  LET a == ss[n].a
+      old == Get(g.reg, a, 0)
+      s1 == IF old # 0 /\ old # n /\ old \in DOMAIN ss THEN [ss EXCEPT ![old].repl = TRUE] ELSE ss
+  IN /\ ss' = [s1 EXCEPT ![n].pc = "live", ![n].pred = IF old # n THEN old ELSE @]
+     /\ g' = [g EXCEPT !.reg = Upd(g.reg, a, n)]
+
 StepCbAdd(e) ==
   /\ e.ev = "CbAdd" /\ Known(e)
-  /\ LET old == Get(g.reg, e.a, 0)
-         s1 == IF old # 0 /\ old \in DOMAIN ss THEN [ss EXCEPT ![old].repl = TRUE] ELSE ss
-     IN ss' = [s1 EXCEPT ![e.s].pc = "live"]
-  /\ g' = [g EXCEPT !.reg = Upd(g.reg, e.a, e.s)]
+  /\ AddEffect(e.s)
+  /\ UNCHANGED <<alarms, scen>>
+
+\* serve.registered: SyncChain returned from AddCallback.  Normally the cb.add stamp came first; if the
+\* code path through AddCallback did not reach that stamp the registration is recorded here.
+StepRegistered(e) ==
+  /\ e.ev = "Registered" /\ Known(e)
+  /\ IF ss[e.s].pc # "live" THEN AddEffect(e.s) ELSE UNCHANGED <<g, ss>>
   /\ UNCHANGED <<alarms, scen>>
 
 StepCbRemove(e) ==
@@ -241,6 +253,13 @@ StepQuiesce(e) ==
                      ELSE "other"
          A1 == {Alarm("LiveComplete", [ev |-> "Quiesce"], shape(s), "stream is open and healthy but has not received every stored round")
                   : s \in {t \in check : bad(t)}}
+         \* C12: a healthy registered stream is served whatever the consumers of OTHER registrations do
+         stalled == {t \in DOMAIN ss : ss[t].health = "stall"}
+         starved == {s \in check : stalled # {} /\ ~(ss[s].dispAfter \subseteq Range(ss[s].sent))}
+         A4 == {Alarm("OthersServed", [ev |-> "Quiesce"],
+                      IF ss[s].pred \in stalled THEN "replacement-behind-stalled-predecessor" ELSE "starved-behind-stalled-stream",
+                      "a healthy registered stream was not handed the beacons dispatched to it while another consumer is stalled")
+                  : s \in starved}
          hasX == Has(e, "xsent") /\ ~e.diverged /\ ~(Has(e, "nondet") /\ e.nondet)
          obs(i) == IF i \in DOMAIN ss THEN ss[i].sent ELSE <<>>
          A2 == IF hasX /\ \E i \in DOMAIN e.xsent : e.xsent[i] # obs(i)
@@ -250,7 +269,7 @@ StepQuiesce(e) ==
          A3 == IF hasX /\ \E i \in DOMAIN e.xtags : e.xtags[i] \notin mine
                  THEN {Alarm("Conformance", [ev |-> "Quiesce"], "prediction", "a monitor failure predicted by the specification was not observed")}
                  ELSE {}
-     IN alarms' = alarms \cup A1 \cup A2 \cup A3
+     IN alarms' = alarms \cup A1 \cup A2 \cup A3 \cup A4
   /\ UNCHANGED <<g, ss, scen>>
 
 StepPutCall(e) ==
@@ -260,7 +279,7 @@ StepPutCall(e) ==
 
 \* events that carry no information for this module
 StepOther(e) ==
-  /\ \/ e.ev \in {"Registered"}
+  /\ \/ e.ev \in {"Registered"} /\ ~Known(e)
      \/ e.ev \in {"BeforeScan", "SendEnter", "Send", "AfterScan", "CbAdd", "StreamBlocked", "Fault", "End"} /\ ~Known(e)
   /\ UNCHANGED <<g, ss, alarms, scen>>
 
@@ -268,7 +287,7 @@ TraceNext ==
   /\ l <= Len(TraceLog)
   /\ LET e == TraceLog[l] IN
        \/ StepReset(e) \/ StepOpen(e) \/ StepBeforeScan(e) \/ StepSendEnter(e) \/ StepSend(e) \/ StepAfterScan(e)
-       \/ StepCbAdd(e) \/ StepCbRemove(e) \/ StepStored(e) \/ StepDispatch(e) \/ StepPutDone(e)
+       \/ StepCbAdd(e) \/ StepRegistered(e) \/ StepCbRemove(e) \/ StepStored(e) \/ StepDispatch(e) \/ StepPutDone(e)
        \/ StepPutBlocked(e) \/ StepStreamBlocked(e) \/ StepFault(e) \/ StepEnd(e) \/ StepDiverged(e)
        \/ StepQuiesce(e) \/ StepPutCall(e) \/ StepOther(e)
   /\ l' = l + 1
